@@ -7,7 +7,7 @@ written directly on the symbolic blocks.
 """
 
 from .. import arr as A
-from ..poly import Poly, as_poly, sym_id
+from ..poly import Poly, as_poly, sym_id, pk
 from ..report import Finding
 from .common import *
 
@@ -38,7 +38,7 @@ class ModelSym(object):
         self.calls = []
 
     def blocks_for(self, x):
-        key = tuple((t, x[t].shape, tuple(as_poly(e).key() for e in x[t].elems)) for t in x.keys())
+        key = tuple((t, x[t].shape, tuple(pk(e) for e in x[t].elems)) for t in x.keys())
         kid = sym_id(("appkey", key))
         self.calls.append(kid)
         out = {}
